@@ -171,7 +171,8 @@ def model_sanitize(name):
         s = "c" + s
     if _re.match(r"^.+__\d+$", s):
         s += "_"
-    if s in reserved_names():
+    import keyword
+    if s in reserved_names() or keyword.iskeyword(s):
         s += "_"
     return s
 
